@@ -35,6 +35,10 @@ void vm_heap_destroy(VmHeap *heap) {
     free(heap->intern_table);
     heap->intern_table = NULL;
     heap->intern_count = 0;
+    free(heap->release_pending);
+    heap->release_pending = NULL;
+    heap->release_pending_count = 0;
+    heap->release_pending_capacity = 0;
 }
 
 /* ========================================================================
@@ -69,10 +73,36 @@ static void release_tuple(VmHeap *heap, VmTuple *t);
 static void release_closure(VmHeap *heap, VmClosure *c);
 static void release_hashmap(VmHeap *heap, VmHashMap *m);
 
+static void release_one(VmHeap *heap, NanoValue v);
+
 void vm_release(VmHeap *heap, NanoValue v) {
     if (!val_is_heap_obj(v) && v.tag != TAG_FUNCTION) return;
+    if (!v.as.obj) return;
+    if (heap->releasing) {
+        /* called for a child of an object that is being freed: queue it */
+        if (heap->release_pending_count == heap->release_pending_capacity) {
+            uint32_t cap = heap->release_pending_capacity ? heap->release_pending_capacity * 2 : 64;
+            NanoValue *grown = realloc(heap->release_pending, cap * sizeof(NanoValue));
+            if (!grown) {
+                release_one(heap, v);   /* out of memory: fall back to recursion */
+                return;
+            }
+            heap->release_pending = grown;
+            heap->release_pending_capacity = cap;
+        }
+        heap->release_pending[heap->release_pending_count++] = v;
+        return;
+    }
+    heap->releasing = true;
+    release_one(heap, v);
+    while (heap->release_pending_count > 0) {
+        release_one(heap, heap->release_pending[--heap->release_pending_count]);
+    }
+    heap->releasing = false;
+}
+
+static void release_one(VmHeap *heap, NanoValue v) {
     void *ptr = v.as.obj;
-    if (!ptr) return;
     VmHeapHeader *hdr = (VmHeapHeader *)ptr;
     if (hdr->ref_count == 0) return; /* already freed or static */
     hdr->ref_count--;
